@@ -255,7 +255,8 @@ def pairs_for(ctx, img, rng, budget, spent, wrap=False):
     """the chunkings of one image that fit the model budget"""
     n = len(img.data)
     quick = ctx.quick
-    fam = G.chunk_family(n, img.bounds, rng, pairs='sample' if (quick or n > 4096) else 'all')
+    small = (1, 3, 17, 64, 100) if n <= 4096 else ((17, 64, 100) if n <= 40 * G.K else ())
+    fam = G.chunk_family(n, img.bounds, rng, pairs='sample' if (quick or n > 4096) else 'all', small=small)
     fmt = 'wrap' if wrap else img.fmt
     mo = img.params.get('meta_off') if isinstance(img.params.get('meta_off'), int) else None
     kept, skipped = G.select(fmt, n, fam, budget['pair'], mo)
